@@ -243,7 +243,8 @@ def run(ctx, rep):
                         dict(weights=list(w), counts=cnt, N=N), "weighted:measure", True, cnt, None, "C11_weighted_pick")
     # tournament: all index-draw outcomes for small n
     for n in range(1, ctx.pick(3, 4) + 1):
-        for w in lattice(n, (0, 1, 2)):
+        # tournaments compare RAW fitness (SHAGA hands -f(x) under minimization): negative, all-negative and zero values included
+        for w in lattice(n, (-2, -1, 0, 2) if n <= 3 else (-1, 0, 2)):
             ft = [float(x) for x in w]
             for tour in range(1, n + 1):
                 for script, r in MR.enumerate_outcomes("thefittest.utils.selections.tournament_selection",
@@ -311,7 +312,7 @@ def run(ctx, rep):
         tour = ctx.rng.randint(1, n)
         qty = ctx.rng.randint(1, 6)
         for name, fc, args in (
-            ("tournament_selection", c_ts, (np.array(ft), np.array(rk), np.int64(tour), np.int64(qty))),
+            ("tournament_selection", c_ts, (np.array(ft) - (3.0 if s % 2 else 0.0), np.array(rk), np.int64(tour), np.int64(qty))),
             ("proportional_selection", c_ps, (np.array(ft), np.array(rk), np.int64(tour), np.int64(qty))),
             ("rank_selection", c_rk, (np.array(ft), np.array(rk), np.int64(tour), np.int64(qty))),
         ):
@@ -320,7 +321,7 @@ def run(ctx, rep):
             MR.seed(seed)
             om, log = MR.run_log("thefittest.utils.selections." + name, *args)
             om = [int(v) for v in om]
-            case = dict(fn=name, fitness=ft, rank=rk, tour_size=tour, quantity=qty, seed=seed, draws=log)
+            case = dict(fn=name, fitness=[float(v) for v in args[0]], rank=rk, tour_size=tour, quantity=qty, seed=seed, draws=log)
             rep.count("seeded-" + name, (seed, name))
             rep.traces += 1
             if oc != om:
@@ -333,7 +334,7 @@ def run(ctx, rep):
                 rep.problem("seeded", f"{name}: wrong count / invalid index / zero-weight pick", case, "seeded:" + name,
                             True, oc, None, "C11_selection_count_range")
             if name == "tournament_selection":
-                f_ts.add(f"({q_list(ft)}, {C.cnat(tour)}, {C.cnat(qty)}, {to_draws(log)}, {z_list(oc)})", case)
+                f_ts.add(f"({q_list([float(v) for v in args[0]])}, {C.cnat(tour)}, {C.cnat(qty)}, {to_draws(log)}, {z_list(oc)})", case)
             else:
                 wv = ft if name == "proportional_selection" else rk
                 f_ws.add(f"({q_list(wv)}, {C.cnat(qty)}, true, {to_draws(log)}, {z_list(oc)})", case)
